@@ -1032,6 +1032,12 @@ def pad(s: Term, width: Term, fill: Term, side: str, I: Any = None, st: Any = No
                     return T.seq("raw", s[2] + padatoms if side == "ljust" else padatoms + s[2])
                 if lo_ is not None and lo_ >= w:
                     return s
+                # length on both sides of the width: the padded form when it is shorter, unchanged otherwise
+                from .interp import mkcmp
+                cnt = (Lin.of(c(w)) - Lin.of(ln)).term()
+                padatoms = (("rep", fh, cnt),)
+                padded = T.seq("raw", s[2] + padatoms if side == "ljust" else padatoms + s[2])
+                return ("seq", "raw", (("alt", mkcmp("<", ln, c(w)), padded, s),))
             return top("pad of bytes whose length is not bounded by the path's guards")
     if not isinstance(w, int) or f is None or len(f) != 1:
         return top("pad with non-constant width/fill")
